@@ -1797,6 +1797,9 @@ def run(tier: str, only=None) -> core.Result:
         n = (len(table("objects", d)) + 1) if (vary == "params" or (vary == "result" and _result_is_object_only(f))) \
             else len(table("values", d))
         id_list = list(range(len(ids))) if "id" in ps else [None]
+        if tier == "quick" and n > 1000 and len(ids) == len(IDS):
+            # the large value tables (result / error.data) with 9 of the 17 ids in quick: 0, -1, 2^63, 2^64-1, "", "0", "007", 200 chars, non-ASCII
+            id_list = [0, 2, 5, 6, 7, 8, 12, 15, 16]
         if "id" in ps and inspect.signature(f).parameters["id"].default is None:
             id_list = id_list + [None]
         out = []
@@ -1881,7 +1884,7 @@ def run(tier: str, only=None) -> core.Result:
     cfgs = [{"part": "posts", "transport": ti, "way": wi, "ids": pids, "id": ii}
             for ti in range(len(POST_TRANSPORTS)) for wi in range(len(WAYS)) for ii in range(len(pids))]
     cfgs += [{"part": "posts", "transport": ti, "way": wi, "ids": pids, "id": 1, "big": True}
-             for ti in range(len(POST_TRANSPORTS)) for wi in (0, 1, 3, 9)]
+             for ti in range(len(POST_TRANSPORTS)) for wi in (3, 9)]
     out = explorer.explore(RUN, cfgs)
     sched.absorb(res, "d-transport-wire-forms", RUN, out, cfgs)
     samples += [{"part": "d-transport-wire-forms", "index": i, "case": {"transport": POST_TRANSPORTS[cfgs[i]["transport"]], "way": WAYS[cfgs[i]["way"]],
@@ -1975,7 +1978,7 @@ def run(tier: str, only=None) -> core.Result:
         f"payloads = vf.gen.json_values(depth<={depth}) ({n_val} values, {n_obj - 1} objects; boundary scalars incl. 2^53+1, 2^63, 2^64-1, -0.0, "
         "1e308, 5e-324, NUL, U+0085, U+2028/9, U+FFFF, U+1F600; containers with <=2 children, empty and non-ASCII keys); ids = vf.gen.IDS (17); "
         "methods = {tools/call, empty, Unicode}. (a) every discovered constructor x id x method x every object as params / every value as "
-        "result / every value as error.data (x 5 codes x 3 messages at depth 1; progress tokens at depth 1); (b) every discovered send_* helper x "
+        "result / every value as error.data (quick: these two value tables with 9 of the 17 ids) (x 5 codes x 3 messages at depth 1; progress tokens at depth 1); (b) every discovered send_* helper x "
         "argument profiles {required only, all optionals, second Union arm} x 3 texts for str parameters x every object for Dict[str, Any] "
         "parameters; (c) MCPServer handler: 14 method cases x id x every object as params/arguments; the server, stdio and elicitation parts use the 8 ids "
         "{0, 2^64-1, empty, 007, non-ASCII, -1, '0', 2^53+1} in quick; (d) stdio: 9 message kinds (typed, unified, "
@@ -1984,7 +1987,7 @@ def run(tier: str, only=None) -> core.Result:
         "already carry _meta {empty, other members, a stale token, nested nulls, every depth-1 object}: the emitted params must equal the given ones plus exactly the "
         "token. What the three transports put on the wire (stdio stdin bytes, Streamable-HTTP POST body, legacy SSE POST body via the scripted httpx seam) for "
         "messages built 10 ways (create_*, unified classmethods, classes with and WITHOUT jsonrpc=, unified class with and without, parse_message, model_validate "
-        "with and without the member, plain dict) x 4 kinds x 5 ids x 32 payloads, and 4 ways x 5 LARGE payloads (65,000 bytes ... 1.1 MB, around and beyond a 64 KiB pipe buffer): the bytes must be a valid envelope (jsonrpc exactly '2.0') with the given members. "
+        "with and without the member, plain dict) x 4 kinds x 5 ids x 32 payloads, and 2 ways (class without jsonrpc=, dict) x 5 LARGE payloads (65,000 bytes ... 1.1 MB, around and beyond a 64 KiB pipe buffer): the bytes must be a valid envelope (jsonrpc exactly '2.0') with the given members. "
         "the same object handed to the stdio write stream again after a change (typed / unified / dict x 4 kinds x id value, id JSON type, method, params member, "
         "params removed, result, error x sequences A,A' / A,B,A' / A,A,A'): every line must equal the object as it is when handed over. Payload-less success "
         "responses from 9 emitters (create_response with and without None, the unified classmethod three ways, server ping on two server objects, "
